@@ -24,6 +24,7 @@ EXPLANATION = (
     " (R11) pandas drop_invalid_rows never skips a collected error (no `continue` / bypass for errors without row-shaped failure cases). " 
     "NOT decided: "
     "row-set equality on real data; MultiIndex label round trip through str/eval."
+    ' (R12) the per-row mask of the polars nullable check (the later check_output) is materialised from the final missing-value expression: at the statement that materialises it the reaching definitions of every step-wise built name equal those at the returns. R6 also recognises `pd.Series(obj.index)` (labels become values) as label-destroying.'
 )
 LEVEL_RULE = "one obligation per backend validate / fold step / typestate use"
 FLOORS = {"R1": 5, "R2": 7, "R3": 2, "R4": 5, "R5": 1, "R6": 3, "R7": 3, "R8": 2, "R9": 1, "R10": 1, "R11": 1}
@@ -337,6 +338,52 @@ def r6_labels_survive_delegation(ctx):
         raise AnalysisError(f"pandas components: expected 3 delegated validations (column, index, multi-index), found {n}")
 
 
+def r12_polars_null_mask_is_the_final_expression(ctx):
+    """The polars nullable check builds its missing-value expression in steps (`is_not_null()`, then `& is_not_nan()` for
+    floats) and materialises it as the per-row mask that becomes `check_output` - the thing drop_invalid_rows filters with.
+    The mask has to be taken from the *final* expression: materialised before the last step, the verdict (computed from the
+    full expression) says "fails" while the mask marks nulls only, and the NaN rows survive drop_invalid_rows."""
+    ix = ctx.ix
+    m = ix.module("pandera/backends/polars/components.py")
+    cb = m.classes.get("ColumnBackend")
+    f0 = cb.lookup("check_nullable") if cb is not None else None
+    if f0 is None:
+        raise AnalysisError("polars ColumnBackend.check_nullable missing")
+    ctx.touched(f0)
+    f = expanded(ix, f0)
+    cfg = cfg_of(f.node)
+    rd = cfg.reaching_defs()
+    data = f0.positional[1]
+    # names assigned more than once (built in steps)
+    counts = {}
+    for st in function_stmts(f):
+        if isinstance(st, (ast.Assign, ast.AugAssign)):
+            for t in (st.targets if isinstance(st, ast.Assign) else [st.target]):
+                if isinstance(t, ast.Name):
+                    counts[t.id] = counts.get(t.id, 0) + 1
+    stepwise = {k for k, v in counts.items() if v > 1}
+    masks = [st for st in function_stmts(f) if isinstance(st, ast.Assign) and isinstance(st.value, ast.Call) and callee_last(st.value) == "select"
+             and isinstance(st.value.func, ast.Attribute) and txt(st.value.func.value) == data
+             and any(isinstance(x, ast.Name) and x.id in stepwise for a in st.value.args for x in ast.walk(a))]
+    if not masks:
+        # the expression is built in one step (or the mask is not named): nothing can be materialised too early
+        ctx.ob("R12", f0, "polars check_nullable: the per-row mask is taken from the final missing-value expression", True, "expression not built in steps")
+        return
+    ends = [n_ for n_ in cfg.nodes if n_.kind == "stmt" and isinstance(n_.ast, ast.Return)]
+    for st in masks:
+        node = cfg.node_of(st)
+        for nm in {x.id for a in st.value.args for x in ast.walk(a) if isinstance(x, ast.Name) and x.id in stepwise}:
+            here = rd.get(node.id, {}).get(nm, set())
+            final = set()
+            for e in ends:
+                final |= rd.get(e.id, {}).get(nm, set())
+            ok = here == final
+            ctx.ob("R12", f0, f"polars check_nullable: the per-row mask `{txt(st.targets[0])}` is taken from the final `{nm}`", ok,
+                   "materialised after the last step" if ok else
+                   f"`{txt(st)[:60]}` materialises `{nm}` before its last step (`& is_not_nan()`): check_output / failure cases mark nulls only while the verdict counts NaN - "
+                   "with drop_invalid_rows=True the NaN rows of a non-nullable float column are kept", f0.loc(st))
+
+
 def r7_polars_check_output_is_one_column(ctx):
     """polars drop_invalid_rows AND-folds the boolean column CHECK_OUTPUT_KEY of every collected error.  A core check that
     runs over a selector (a regex column matches several columns) must hand over exactly that one column:
@@ -471,6 +518,7 @@ def run(ctx):
     r5_no_rowwise_dropna_before_reshape(ctx)
     r6_labels_survive_delegation(ctx)
     r7_polars_check_output_is_one_column(ctx)
+    r12_polars_null_mask_is_the_final_expression(ctx)
     r8_component_errors_reach_the_container(ctx)
     r9_labels_not_rebuilt_by_eval(ctx)
     r10_rows_from_complete_output(ctx)
